@@ -368,16 +368,22 @@ def _work(batch):
     out = []
     for c in batch:
         SEQ[0] += 1
+        cachelib.arm_timeout()
         try:
             r = run_history(c["hex"], c.get("actions"), c.get("seed"), c.get("length", 0),
                             c.get("observe_all", False))
             if r is not None:
                 r["worker"] = [os.getpid(), SEQ[0]]
             out.append(r)
+        except cachelib.HistoryTimeout:
+            out.append({"steps": [], "bad": [], "known": False, "line": None, "actions": c.get("actions") or [],
+                        "nedits": 0, "view_changed": False, "cyclic": False, "timeout": True})
         except Exception as e:
             out.append({"steps": [], "bad": [{"step": "crash", "why": f"{type(e).__name__}: {e}"}],
                         "known": False, "line": None, "actions": c.get("actions") or [], "nedits": 0,
                         "view_changed": False, "cyclic": False})
+        finally:
+            cachelib.disarm_timeout()
     return out
 
 
@@ -567,6 +573,10 @@ def main(tier, seed):
     for c, r in zip(cases, results):
         if r is None:
             refused += 1
+            continue
+        if r.get("timeout"):
+            chk.stats["histories-abandoned(view took > %ds: exponentially large shared structure)" % cachelib.LIMIT] = \
+                chk.stats.get("histories-abandoned(view took > %ds: exponentially large shared structure)" % cachelib.LIMIT, 0) + 1
             continue
         chk.count()
         kk = c["kind"].split(":")[0]
